@@ -19,13 +19,12 @@ Print Assumptions C02_lifecycle_exactly_once.
    owner, this world); [owed] the postponed calls, one group per operation. *)
 
 (* exactly once over a whole history: the calls owed by all attach/detach
-   events = the on_add/on_remove calls observed + what is still postponed;
-   nothing is postponed while dispatching is enabled *)
+   events = the on_add/on_remove calls observed + what is still postponed
+   (also across enabling assignments that a callback interrupted by raising) *)
 Theorem C02_nothing_lost_nothing_twice : forall p tr s' owed',
   run2 p (s5_init, []) tr = Some (s', owed') ->
-  Permutation (total_notifs p s5_init tr) (total_calls tr ++ concat owed')
-  /\ (en s' = true -> owed' = []).
-Proof. intros p tr s' owed' H. exact (conservation p tr s5_init [] s' owed' H (fun _ => eq_refl)). Qed.
+  Permutation (total_notifs p s5_init tr) (total_calls tr ++ concat owed').
+Proof. intros p tr s' owed' H. exact (conservation p tr s5_init [] s' owed' H). Qed.
 Print Assumptions C02_nothing_lost_nothing_twice.
 
 (* enabled: the calls lie inside the operation; disabled: none, they are postponed *)
@@ -39,10 +38,22 @@ Print Assumptions C02_inside_the_operation.
 (* re-enabling delivers everything postponed, operation after operation *)
 Theorem C02_release_in_operation_order : forall p s owed ob s' owed',
   step2 p (s, owed) (SetEnabled true) ob = Some (s', owed') -> en s = false ->
+  (o_exc ob =? 3) = false ->
   owed' = [] /\ exists chunks, filter is_lc (o_log ob) = concat chunks /\
                 Forall2 (@Permutation cb) chunks (owed ++ [[]]).
 Proof. exact release_in_order. Qed.
 Print Assumptions C02_release_in_operation_order.
+
+(* ... and when a delivered callback raises (the enabling assignment raises,
+   exception kind 3): the calls made end with the raising one, were taken in
+   operation order, and everything not called is still owed, to the next
+   enabling assignment *)
+Theorem C02_release_interrupted : forall p s owed ob s' owed',
+  step2 p (s, owed) (SetEnabled true) ob = Some (s', owed') -> (o_exc ob =? 3) = true ->
+  owed_raise (if en s then owed else owed ++ [[]]) (filter is_lc (o_log ob)) = Some owed' /\
+  Permutation (concat owed) (filter is_lc (o_log ob) ++ concat owed').
+Proof. exact release_interrupted. Qed.
+Print Assumptions C02_release_interrupted.
 
 (* a component is a registered listener exactly while it sits in a slot *)
 Theorem C02_registered_iff_attached : forall p s owed o ob s' owed' i r,
@@ -125,4 +136,26 @@ Example C02_still_listening_after_delete_rejected :
   holds_b {| c_p := ex_p; c_tr :=
     [ (Create (Some 4) [1], mkobs (Some 4) 0 [] [mkcb CAdd 1 4 true] []);
       (Delete 4 true, mkobs None 0 [] [mkcb CRem 1 4 true] [QIsH 1 true]) ] |} = false.
+Proof. vm_compute. reflexivity. Qed.
+
+(* a raising callback during the release: instance 1001 (class 1) raises when
+   its postponed on_add is delivered; the notification postponed after it
+   stays pending and is delivered by the next enabling assignment *)
+Definition exx_p : params :=
+  {| p_cls := [(1001, 1); (2, 1)];
+     p_kinds := [(1, {| k_h := true; k_add := true; k_rem := true; k_probe := false |})] |}.
+Definition exx_prefix : trace :=
+  [ (SetEnabled false, mkobs None 0 [] [] []);
+    (Create (Some 1) [1001], mkobs (Some 1) 0 [] [] []);
+    (Create (Some 2) [2], mkobs (Some 2) 0 [] [] []);
+    (SetEnabled true, mkobs None 3 [] [mkcb CAdd 1001 1 true] [QIsH 2 true]) ].
+Example C02_raising_release_accepted :
+  let c := {| c_p := exx_p; c_tr := exx_prefix ++
+    [ (Remove 1 1, mkobs (Some 1001) 0 [] [mkcb CRem 1001 1 true] []);
+      (SetEnabled true, mkobs None 0 [] [mkcb CAdd 2 2 true] []) ] |} in
+  wf_b c = true /\ known_b c = false /\ accepts c = true.
+Proof. vm_compute. auto. Qed.
+Example C02_lost_after_raise_rejected :
+  holds_b {| c_p := exx_p; c_tr := exx_prefix ++
+    [ (SetEnabled true, mkobs None 0 [] [] []) ] |} = false.
 Proof. vm_compute. reflexivity. Qed.
